@@ -246,7 +246,8 @@ class Driver:
             if jid not in self.m.jobs:
                 merged[jid] = dict(merged[jid], st=['X'] * merged[jid]['n'])
         self.check_members(a, merged)
-        command_line = a in ('B1', 'B2', 'E', 'NF', 'FALSE') or a[:2] == 'bg'
+        # (`fg` of a job whose members all end at once, e.g. after their gate was opened while stopped, returns to the prompt too)
+        command_line = a in ('B1', 'B2', 'E', 'NF', 'FALSE') or a[:2] in ('bg', 'fg')
         if self.m.fg is None and (command_line or was_fg is not None):
             self.expect(a + ':prompt-returns', lambda: s.prompts() > before)
         owner = self.shell_pgid if self.m.fg is None else self.pids[self.m.fg][0]
@@ -326,6 +327,35 @@ def enumerate_sequences(depth, tier):
     return out
 
 
+def model_key(m):
+    """canonical form of a model state: everything the model's future behaviour depends on"""
+    return (m.fg, tuple(sorted((k, v['n'], tuple(v['st']), v['bg'], v['gate_open'], tuple(sorted(v['pending_int'])), v['unreported']) for k, v in m.jobs.items())))
+
+
+def bfs_transitions(alphabet, maxdepth):
+    """explicit-state search over the reference model: every transition (state, action) out of every distinct model
+    state reachable within maxdepth - 1 actions, as the shortest action path reaching the state plus the action.
+    Returns (paths, number of distinct states, fixpoint reached?)."""
+    seen = {model_key(Model())}
+    frontier = [((), Model())]
+    paths = []
+    depth = 0
+    while frontier and depth < maxdepth:
+        nxt = []
+        for path, m in frontier:
+            for a in m.enabled(alphabet):
+                m2 = m.copy()
+                m2.apply(a)
+                paths.append(path + (a,))
+                k = model_key(m2)
+                if k not in seen:
+                    seen.add(k)
+                    nxt.append((path + (a,), m2))
+        frontier = nxt
+        depth += 1
+    return paths, len(seen), not frontier
+
+
 def run(rep, tier):
     depth = 4 if tier == 'quick' else 5
     rep.rule = ('all action sequences of depth %d that are enabled in the reference model (<= 2 jobs alive), each replayed from a fresh interactive shell on a pty with the oracle evaluated after every action; '
@@ -334,6 +364,7 @@ def run(rep, tier):
         'every stage is the helper vh-wait (blocks until its gate file exists): finishing a job is an explorer action; signal delivery is serialised (each action settles before the next) — simultaneous arrivals are covered by C06',
         '`fg` / `bg` are always given an explicit job id (without an id cicada picks a job by hash-map order, which the statement does not fix)',
         'each predicted condition is awaited for at most 5 s with 5 ms polling; a condition that is not reached is the violation',
+        'explicit-state layer: model states are merged by their canonical form (jobs with member states, gate, pending interrupts, foreground job); shell-internal state that differs between two paths to the same model state is only covered by the sequence layer',
         'quick: depth 4 over the reduced action alphabet (no CONT, no empty line / not-found / failing command, signals only to the first member at the prompt) plus depth 3 over the full alphabet; thorough: depth 4 over the full alphabet plus depth 5 over the reduced one',
     ]
     # (shorter sequences are prefixes of the maximal ones)
@@ -341,6 +372,18 @@ def run(rep, tier):
         jobs = [(s, 'quick') for s in enumerate_sequences(4, 'quick')] + [(s, 'thorough') for s in enumerate_sequences(3, 'thorough')]
     else:
         jobs = [(s, 'thorough') for s in enumerate_sequences(4, 'thorough')] + [(s, 'quick') for s in enumerate_sequences(5, 'quick')]
+    # explicit-state layer: every transition out of every distinct model state (canonical form = model_key), far deeper
+    # than the sequence enumeration reaches; quick: reduced alphabet to depth 6, thorough: reduced alphabet to the FIXPOINT
+    # and the full alphabet to depth 6
+    have = set(j[0] for j in jobs)
+    bfs_info = []
+    for alphabet, maxdepth in ([('quick', 6)] if tier == 'quick' else [('quick', 40), ('thorough', 6)]):
+        paths, nstates, fix = bfs_transitions(alphabet, maxdepth)
+        extra = [p for p in paths if p not in have]
+        have.update(extra)
+        jobs += [(p, alphabet) for p in extra]
+        bfs_info.append({'layer': 'explicit-state search over the reference model, every transition replayed on a pty', 'alphabet': 'reduced' if alphabet == 'quick' else 'full',
+                         'max_depth': maxdepth, 'model_states': nstates, 'transitions': len(paths), 'sessions_added': len(extra), 'fixpoint': fix, 'complete': True})
     seqs = [j[0] for j in jobs]
     states = set()
     for seq, problem, done in common.pmap(run_sequence, jobs, workers=6, chunk=2):
@@ -348,7 +391,11 @@ def run(rep, tier):
         rep.transitions += len(done or [])
         if any(a[0] in 'FB' for a in seq):
             rep.nontrivial += 1
-        states.add(tuple(seq[:2]))
+        if problem is None:
+            mm = Model()
+            for a in seq:
+                mm.apply(a)
+            states.add(model_key(mm))
         if problem is None:
             rep.outcome('ok')
             rep.traces_validated += 1
@@ -364,6 +411,7 @@ def run(rep, tier):
                           problem[1], repro='interactive session: ' + ' ; '.join(seq))
     rep.states = len(states)
     rep.bounds.append({'layer': 'pty sessions', 'depth': depth, 'sequences': len(seqs), 'complete': True})
+    rep.bounds.extend(bfs_info)
     rep.sample({'actions': list(seqs[len(seqs) // 2])})
     if rep.traces_validated < 30 and not rep.viol:
         rep.machinery.append('vacuity guard: too few passing sessions')
